@@ -241,6 +241,21 @@ theorem originAnswer_noop [DecidableEq Tag] (C : Crypto Tag Sess Blob) (n : Node
   · simp [h, hr]
   · simp [h, hr, hi]
 
+theorem pairing_some {n : Node Sess} {cid ident : Nat} {req : CreateReq} (h : pairing? n cid ident = some req) :
+    n.creates ident = some req ∧ req.toCid = cid := by
+  unfold pairing? at h
+  cases hc : n.creates ident with
+  | none => rw [hc] at h; cases h
+  | some r =>
+    rw [hc] at h
+    by_cases ht : r.toCid = cid
+    · simp [ht] at h; subst h; exact ⟨rfl, ht⟩
+    · simp [ht] at h
+
+theorem pairing_none_of_creates {n : Node Sess} {cid ident : Nat} (h : n.creates ident = none) :
+    pairing? n cid ident = none := by
+  simp [pairing?, h]
+
 /-- one step seen from one existing circuit: unchanged / gone / re-sent with the event's ephemeral / accepted -/
 theorem step_circ_cases [DecidableEq Tag] (C : Crypto Tag Sess Blob) (n : Node Sess) (e : Ev Tag Blob) (cid : Nat)
     (c : Circ Sess) (h0 : n.circuits cid = some c) (hnew : ¬ e.createsCircuit cid) :
@@ -279,13 +294,15 @@ theorem step_circ_cases [DecidableEq Tag] (C : Crypto Tag Sess Blob) (n : Node S
     left
     simp only [step, createCircuit, setCirc_circ, hc, if_false, h0]
   | created cid' ident key auth cands env =>
-    cases hcr : n.creates ident with
+    cases hcr : pairing? n cid' ident with
     | some req =>
       left
       simp only [step, onCreated, hcr]
       split
       · exact h0
-      · split <;> exact h0
+      · split
+        · exact h0
+        · split <;> exact h0
     | none =>
       exact answer cid' ident key auth cands env (Or.inl rfl) (by simp [step, onCreated, hcr])
   | extended cid' ident key auth cands env =>
@@ -368,12 +385,14 @@ theorem step_absent [DecidableEq Tag] (C : Crypto Tag Sess Blob) (n : Node Sess)
     have hc : cid ≠ cid' := fun h => hnew (by simp [Ev.createsCircuit, h])
     simp only [step, createCircuit, setCirc_circ, hc, if_false, h0]
   | created cid' ident key auth cands env =>
-    cases hcr : n.creates ident with
+    cases hcr : pairing? n cid' ident with
     | some req =>
       simp only [step, onCreated, hcr]
       split
       · exact h0
-      · split <;> exact h0
+      · split
+        · exact h0
+        · split <;> exact h0
     | none =>
       simp only [step, onCreated, hcr]
       by_cases hc : cid' = cid
@@ -781,20 +800,23 @@ theorem step_joined [DecidableEq Tag] (C : Crypto Tag Sess Blob) (n : Node Sess)
   cases e with
   | createCircuit cid goal re fh env => left; exact ⟨rfl, rfl⟩
   | created cid ident key auth cands env =>
-    cases hcr : n.creates ident with
+    cases hcr : pairing? n cid ident with
     | none => left; simp only [step, onCreated, hcr]; exact origin cid ident key auth cands env
     | some req =>
+      have hcreq := (pairing_some hcr).1
       cases hex : n.exits req.fromCid with
       | none => left; simp [step, onCreated, hcr, hex]
       | some ex =>
+        by_cases hpeer : (ex.peer != req.peer) = true
+        · left; simp [step, onCreated, hcr, hex, hpeer]
         by_cases hused : ((n.circuits req.toCid).isSome || (n.relays req.toCid).isSome ||
             (n.exits req.toCid).isSome) = true
-        · left; simp [step, onCreated, hcr, hex, hused]
+        · left; simp [step, onCreated, hcr, hex, hpeer, hused]
         · right; right; left
           have hu := hused
           simp only [Bool.or_eq_true, not_or, Option.isSome_iff_ne_none, ne_eq, Classical.not_not] at hu
-          refine ⟨cid, ident, key, auth, cands, env, req, ex, rfl, hcr, hex, hu.1.1, hu.1.2, hu.2, ?_, ?_⟩ <;>
-            simp [step, onCreated, hcr, hex, hused]
+          refine ⟨cid, ident, key, auth, cands, env, req, ex, rfl, hcreq, hex, hu.1.1, hu.1.2, hu.2, ?_, ?_⟩ <;>
+            simp [step, onCreated, hcr, hex, hpeer, hused]
   | extended cid ident key auth cands env => left; exact origin cid ident key auth cands env
   | retryTimeout cid env =>
     left; simp only [step, retryTimeout]; split <;> exact ⟨rfl, rfl⟩
@@ -851,7 +873,7 @@ theorem originAnswer_creates [DecidableEq Tag] (C : Crypto Tag Sess Blob) (n : N
 theorem created_eq_extended [DecidableEq Tag] (C : Crypto Tag Sess Blob) (n : Node Sess) (cid ident : Nat)
     (key : Option Wire) (auth : Tag) (cands : Blob) (env : Env) (hrel : n.creates ident = none) :
     step C n (.created cid ident key auth cands env) = step C n (.extended cid ident key auth cands env) := by
-  simp [step, onCreated, onExtended, hrel]
+  simp [step, onCreated, onExtended, pairing_none_of_creates hrel]
 
 theorem resend_creates [DecidableEq Tag] (C : Crypto Tag Sess Blob) (n : Node Sess) (cid : Nat) (env : Env) (targets : List Key)
     (tries : Int) :
@@ -868,5 +890,10 @@ theorem resend_creates [DecidableEq Tag] (C : Crypto Tag Sess Blob) (n : Node Se
 def RunTimely [DecidableEq Tag] (C : Crypto Tag Sess Blob) : Node Sess → List (Ev Tag Blob) → Prop
   | _, [] => True
   | n, e :: es => JoinTimely n e ∧ RunTimely C (step C n e).1 es
+
+/-- the event is not a resumed join (the only event that needs an overridden, suspending should_join_circuit) -/
+def NoResumedJoin : Ev Tag Blob → Prop
+  | .join _ _ _ _ _ _ => False
+  | _ => True
 
 end Ipv8.C08
